@@ -16,6 +16,7 @@ var GA [2]string
 var GF func(string) string = idf
 var GX any
 var GPP = new(string)
+var GW string
 `
 
 func (g *gen) sanitizeStmt() {
@@ -560,6 +561,23 @@ func Generate(t *rapid.T, p *Profile) *Program {
 		}
 		g.feat("global-writer-reader-pair")
 	}
+	// a get-and-set function on a global, called at two sites: the value stored by the first call is what the second
+	// call returns (the reader and the writer of the global are the same function)
+	swap := false
+	if g.chance(12, "globalswap") && !p.Off["global-pair"] {
+		swap = true
+		l1 := g.nextLine()
+		g.emit("sw1 := source1(%d)", l1)
+		g.prog.Sources[l1] = "source1"
+		g.prog.SrcFunc[l1] = "main"
+		g.emit("gswap(sw1)")
+		g.emit("sw2 := gswap(\"swc\")")
+		l2 := g.nextLine()
+		g.emit("sink1(%d, sw2)", l2)
+		g.prog.Sinks[l2] = "sink1"
+		g.prog.SinkFunc[l2] = "main"
+		g.feat("global-swap-function")
+	}
 	if p.Go {
 		g.emit("waitall()")
 	}
@@ -611,6 +629,17 @@ func Generate(t *rapid.T, p *Profile) *Program {
 			g.prog.SinkFunc[rl] = "greader"
 			g.emit("}")
 		}
+	}
+	if swap {
+		g.emit("")
+		g.emit("func gswap(v string) string {")
+		if g.p.Enter {
+			g.emit("\tenter(995)")
+		}
+		g.emit("\tprev := GW")
+		g.emit("\tGW = v")
+		g.emit("\treturn prev")
+		g.emit("}")
 	}
 	g.prog.Main = strings.Join(g.lines, "\n") + "\n"
 	g.prog.NBits = g.nbits
